@@ -37,7 +37,10 @@ NOISE_KINDS = ['blank', 'ws', 'comment', 'comment_ws', 'short1', 'short2', 'wron
 NOISE = st.lists(st.tuples(st.integers(0, 40), st.sampled_from(NOISE_KINDS)), max_size=6)
 DECOR = st.lists(st.tuples(st.booleans(), st.sampled_from(['', '', ' ', '  ', '\t']), st.sampled_from(['', '', ' ']),
                            st.sampled_from(['', '', '', 'zero', 'plus'])), min_size=12, max_size=12)
-INTSETS = st.lists(st.integers(-10 ** 6, 10 ** 9) | st.integers(-20, 20), max_size=40, unique=True)
+# arbitrary order; small values, wide values, and clusters of huge neighbours (beyond 2**53, where floats collide)
+INTSETS = st.one_of(st.lists(st.integers(-10 ** 6, 10 ** 9) | st.integers(-20, 20), max_size=40, unique=True),
+                    st.lists(st.integers(0, 400).map(lambda k: 1700000000000000000 + k) | st.integers(-3, 3).map(lambda k: -(2 ** 62) + k),
+                             max_size=12, unique=True))
 
 
 def strategy(tier):
@@ -52,12 +55,16 @@ def strategy(tier):
 
 def exhaustive(tier):
     pool = [-5, -1, 0, 3, 4, 10 ** 9]
+    big = [2 ** 60 + 1, 2 ** 60 + 2, 2 ** 60 + 3, -(2 ** 60) - 1, -(2 ** 60) - 2]
     cases = []
     for r in range(0, 7):
         for sub in itertools.combinations(pool, r):
             for order in ('asc', 'desc', 'rot'):
                 cases.append({'only': 'compact', 'ints': list(sub), 'order': order})
-    return {'cases': cases, 'bound': 'all 64 subsets of {-5,-1,0,3,4,10^9} x 3 input orders for compact_timeslot'}
+    for r in range(2, 6):
+        for sub in itertools.permutations(big, r):
+            cases.append({'only': 'compact', 'ints': list(sub), 'order': 'asc'})
+    return {'cases': cases, 'bound': 'all 64 subsets of {-5,-1,0,3,4,10^9} x 3 input orders, and every ordered selection of 2-5 of five neighbours of +-2^60, for compact_timeslot'}
 
 
 def check_compact(rec, ints, ctx=''):
@@ -171,7 +178,7 @@ def run_case(case, rec):
             return False
         accepted.extend(elements(op, d.nodes)[:r['applied']])
     delim, comment, fmt = case['delim'], case['comment'], case['fmt']
-    nt = iocommon.nodetype_for(d.nodes)
+    nt = iocommon.nodetype_for(d.nodes, len(case['ops']))
     noisy, clean, rows, meta = build(case, d, accepted)
     parse = dn.parse_snapshots if fmt == 'snap' else dn.parse_interactions
     kw = dict(comments=comment, directed=d.directed, delimiter=delim, nodetype=nt, timestamptype=int)
